@@ -219,7 +219,7 @@ func checkFixpoint(t *rapid.T, leg string, text []byte, g *doc.G) (nontrivial bo
 }
 
 func TestPropFixpoint(t *testing.T) {
-	ev.Check(t, 2000, 20000, fixpointCase)
+	ev.Check(t, 900, 12000, fixpointCase)
 }
 
 // FuzzFixpoint: the same property under Go's coverage-guided fuzzer (thorough tier); the fuzz
